@@ -39,7 +39,7 @@ FLOOR = {"ids:iter-unsorted": 1, "prod:arity>=3": 1, "order>=2": 1, "order>degre
 
 
 def plan(tier, seed):
-    n = 18 if tier == "quick" else 3520
+    n = 36 if tier == "quick" else 3520
     cases = []
     for k in range(n):
         for kind in ("contig", "sparse", "sparse", "random-ids", "product"):
